@@ -101,14 +101,26 @@ def ev(t):
 
 
 def ser(t, minimal, parent=None, right=False):
+    """minimal = only the parentheses the precedence rules need.  Word prefix operators (not abs floor ceil
+    trunc, precedence 9) bind looser than ^ (10): `floor (a + b) ^ 2` is floor((a+b)^2)."""
     if isinstance(t, str):
         return t
     if len(t) == 2:
         op, a = t
-        s = f"{op} {ser(a, minimal, ('un', op))}"
-        if parent is not None or not minimal:
+        if op == "-":
+            s = f"{op} {ser(a, minimal, ('un', op))}"
+            if parent is not None or not minimal:
+                return "(" + s + ")"
+            return s
+        s = f"{op} {ser(a, minimal, ('unw', op))}"
+        if not minimal:
             return "(" + s + ")"
-        return s
+        if parent is None or parent[0] == "unw":
+            return s
+        pop, side = parent
+        if pop != "un" and pop != "^" and side == "l":
+            return s                      # `floor x + 1` is (floor x) + 1: the binary operator pops the prefix operator
+        return "(" + s + ")"
     op, a, b = t
     s = f"{ser(a, minimal, (op, 'l'))} {op} {ser(b, minimal, (op, 'r'))}"
     if parent is None and minimal:
@@ -118,6 +130,8 @@ def ser(t, minimal, parent=None, right=False):
     pop, side = parent
     if pop == "un":
         return "(" + s + ")"
+    if pop == "unw":
+        return s if PREC[op] > 9 else "(" + s + ")"
     if PREC[op] > PREC[pop] or (PREC[op] == PREC[pop] and side == "l"):
         return s
     return "(" + s + ")"
@@ -150,6 +164,12 @@ def expr_search(tier, seed):
         for x in rnd.sample(lvl1, 25):
             for y in rnd.sample(lvl1, 6):
                 allt.append((op, x, y))
+    for f in UN[1:]:
+        for a in ("1.5", "2.5", "0.5", "1"):
+            for b in ("1", "0.5"):
+                for n_ in ("2", "3", "0"):
+                    allt.append((f, ("^", ("+", a, b), n_)))
+                    allt.append(("*", "2", (f, ("^", ("-", a, b), n_))))
     allt += list(trees(3 if tier == "quick" else 4, rnd, 3000 if tier == "quick" else 30000))
     for t in allt:
         try:
@@ -209,6 +229,12 @@ CASES = [
     ({}, "{{#switch: 02 | 2 = two | #default = other }}", "two"),
     ({}, "{{#switch: x | a = 1 | last }}", "last"),
     ({"T": "{{#if: {{{1|}}} | has {{{1}}} | none }}"}, "{{T|v}}/{{T}}", "has v/none"),
+    # subjects / conditions made of several nodes: blanks BETWEEN the parts belong to the value
+    ({"T": "{{#switch: {{{1}}} {{{2}}} | redfish = joined | red fish = spaced | #default = other }}"}, "{{T|red|fish}}", "spaced"),
+    ({"T": "{{#switch: {{{1}}}{{{2}}} | redfish = joined | red fish = spaced | #default = other }}"}, "{{T|red|fish}}", "joined"),
+    ({"T": "{{#switch:  {{{1}}} {{{2}}}  | 1 2 = spaced | 12 = joined | #default = other }}"}, "{{T|1|2}}", "spaced"),
+    ({"T": "{{#ifeq: {{{1}}} {{{2}}} | a b | same | diff }}"}, "{{T|a|b}}", "same"),
+    ({"T": "{{#if: {{{1|}}} {{{2|}}} | yes | no }}"}, "{{T}}", "no"),
     ({}, "plain text without template syntax", "plain text without template syntax"),
     ({}, "{{#expr: 1 + 2 * 3 }}", "7"),
     ({}, "{{#expr: (1 + 2) * 3 }}", "9"),
@@ -217,6 +243,34 @@ CASES = [
     ({}, "{{#expr: - 2 ^ 2 }}", "4"),
     ({}, "{{#expr: not 0 and 1 }}", "1"),
 ]
+
+
+def strip_ws_search():
+    """Parser._strip_ws on every tuple of <= 4 parts over {node, '', ' ', '\\n ', 'a', ' a '}: only a blank FIRST and a
+    blank LAST text fragment are removed, everything else is kept in order; a plain string is stripped"""
+    import itertools
+    from mwlib.parser.templ.parser import Parser
+    node = object()
+    parts = [node, "", " ", "\n ", "a", " a "]
+    p = Parser.__new__(Parser)
+    n = 0
+    for k in range(0, 5):
+        for t in itertools.product(parts, repeat=k):
+            n += 1
+            want = list(t)
+            if want and isinstance(want[0], str) and not want[0].strip():
+                del want[0]
+            if want and isinstance(want[-1], str) and not want[-1].strip():
+                del want[-1]
+            got = p._strip_ws(t)
+            if list(got) != want or any(a is not b for a, b in zip(got, want)):
+                show = lambda x: ["<node>" if y is node else y for y in x]  # noqa: E731
+                return n, {"detail": f"_strip_ws({show(t)}) = {show(got)}, expected {show(want)}", "witness": {"parts": show(t)}, "class": "strip_ws"}
+    for s_ in ("", " a ", "\n", "a b"):
+        n += 1
+        if p._strip_ws(s_) != s_.strip():
+            return n, {"detail": f"_strip_ws({s_!r})", "witness": {"text": s_}, "class": "strip_ws"}
+    return n, None
 
 
 def template_cases():
@@ -238,6 +292,9 @@ def bounded(chk):
     chk.bounded_result("expr_trees", n, n, False,
                        "all depth-1 trees over 4 leaves x (12 binary + 6 unary operators), sampled depth-2 compositions and seeded random trees to depth 3 (quick) / 4 (thorough), each serialised with minimal and with full parentheses; reference = operator semantics in Python",
                        [f] if f else [])
+    n3, f3 = strip_ws_search()
+    chk.bounded_result("strip_ws_of_conditions_and_switch_subjects", n3, n3, True,
+                       "Parser._strip_ws on all tuples of <= 4 parts over {node, 4 blank / non-blank strings}: removes only a blank first / last text fragment", [f3] if f3 else [])
     n2, f2 = template_cases()
     chk.bounded_result("template_semantics_cases", n2, n2, True,
                        "hand-written template programs (positional unstripped / named stripped, defaults, literal fallback, nesting, #if, #ifeq numeric, #switch fall-through / #default, precedence and association of #expr)",
@@ -257,8 +314,100 @@ def replay_expr(model, obligation):
 def run(chk):
     p1_numeric_compare(chk)
     p5_operator_table(chk)
+    p6_closing_parenthesis(chk)
     bounded(chk)
     chk.assumptions += [
         "int(s)/float(s) are uninterpreted partial functions with: an int literal is also a float literal of the same value",
         "ArgumentList.get / Variable.flatten / IfNode / SwitchNode (nodes.pyx, evaluate.pyx) and the shunting-yard loop are covered by the bounded stand-ins only",
     ]
+
+
+# ----------------------------------------------------------------------------- P6: the pop loop of a closing parenthesis in the #expr evaluator
+EXPRPY = "mwlib/parser/expr.py"
+
+
+def p6_closing_parenthesis(chk):
+    """Operational definition of the shunting-yard step for ')', as a contract over an abstract operator stack
+    (length n, array of operator strings): _handle_closing_parenthesis outputs exactly the operators above the
+    nearest '(' (top first), removes them and that '(' and nothing else; ExprError iff there is no '('."""
+    from pyvc import source
+    from pyvc.interp import LoopSpec, Forall
+    from pyvc.schema import Typing
+    from pyvc.values import SInt, SStr, ClassRef, Model, PObj
+    Z, S = z3.IntSort(), z3.StringSort()
+    AS = z3.ArraySort(Z, S)
+    LP = z3.StringVal("(")
+    ex = Explorer()
+    ex.typing = Typing({"ops": ("index",), "out": ("index",)}, {})
+
+    def g(I):
+        return I.ghost
+    ex.truthy_hooks["opstack"] = lambda I, st: I.decide(g(I)["n"] > 0)
+    ex.len_hooks["opstack"] = lambda I, st: SInt(g(I)["n"])
+
+    def st_pop(I, st):
+        G = g(I)
+        if not I.decide(G["n"] > 0):
+            I.throw("IndexError", "pop from empty list")
+        G["n"] = G["n"] - 1
+        return SStr(z3.Select(G["ops"], G["n"]))
+    ex.methods[("opstack", "pop")] = Model("list.pop on the operator stack", st_pop)
+
+    def st_getitem(I, st, idx):
+        G = g(I)
+        k = I._int_term(idx)
+        k = z3.If(k < 0, k + G["n"], k)
+        if not I.decide(z3.And(k >= 0, k < G["n"])):
+            I.throw("IndexError", "list index out of range")
+        return SStr(z3.Select(G["ops"], k))
+    ex.getitem_hooks["opstack"] = st_getitem
+
+    def output_operator(I, self, op):
+        G = g(I)
+        G["out"] = z3.Store(G["out"], G["m"], op.z if isinstance(op, SStr) else z3.StringVal(op))
+        G["m"] = G["m"] + 1
+    mod = source.module(EXPRPY)
+    ecls = ClassRef(mod.defs["Expr"], mod)
+    fn = ex.function(EXPRPY, "Expr._handle_closing_parenthesis")
+    ex.contracts[f"{EXPRPY}:Expr.output_operator"] = output_operator
+
+    def inv(I, v, it):
+        G = g(I)
+        n, n0, m, ops, out = G["n"], G["n0"], G["m"], G["ops0"], G["out"]
+        I.hint("index", n)
+        I.hint("index", n0 - 1 - m)
+        I.hint("index", m)
+        return [("stack_shrinks_only", z3.And(n >= 0, n <= n0)),
+                ("one_output_per_removed_operator", m == n0 - n),
+                ("stack_cells_never_written", G["ops"] == ops),
+                ("removed_operators_are_not_parentheses", Forall(["index"], lambda j: z3.Implies(z3.And(j >= n, j < n0), z3.Select(ops, j) != LP))),
+                ("outputs_are_the_removed_operators_top_first", Forall(["index"], lambda j: z3.Implies(z3.And(j >= 0, j < m), z3.Select(out, j) == z3.Select(ops, n0 - 1 - j))))]
+
+    def havoc(I, v, it):
+        G = g(I)
+        G["n"] = I.fresh("n", Z)
+        G["m"] = I.fresh("m", Z)
+        G["out"] = I.fresh("out", AS)
+    ex.loopspecs[(fn.ident, 0)] = LoopSpec(inv, lambda I, v, it: g(I)["n"] + 1, havoc)
+
+    def harness(I):
+        G = g(I)
+        G["n"] = G["n0"] = I.fresh("n0", Z)
+        G["ops"] = G["ops0"] = I.fresh("ops0", AS)
+        G["m"] = z3.IntVal(0)
+        G["out"] = I.fresh("out0", AS)
+        I.inputs["n0"] = G["n0"]
+        I.assume(G["n0"] >= 0)
+        out = ex.run_function(I, fn, [PObj(ecls, {}), PObj("opstack", {})])
+        n, n0, m, ops = G["n"], G["n0"], G["m"], G["ops0"]
+        I.hint("index", n)
+        if out.returned:
+            I.oblige("stops_at_the_nearest_open_parenthesis", z3.And(n >= 0, n < n0, z3.Select(ops, n) == LP))
+            I.oblige("removes_exactly_the_operators_above_it_and_the_parenthesis", m == n0 - n - 1)
+            I.oblige("nothing_between_is_a_parenthesis", Forall(["index"], lambda j: z3.Implies(z3.And(j > n, j < n0), z3.Select(ops, j) != LP)))
+            I.oblige("outputs_top_first", Forall(["index"], lambda j: z3.Implies(z3.And(j >= 0, j < m), z3.Select(G["out"], j) == z3.Select(ops, n0 - 1 - j))))
+            I.oblige("rest_of_the_stack_untouched", G["ops"] == ops)
+        else:
+            I.oblige("raises_ExprError_only", out.raised("ExprError"))
+            I.oblige("raises_only_without_an_open_parenthesis", Forall(["index"], lambda j: z3.Implies(z3.And(j >= 0, j < n0), z3.Select(ops, j) != LP)))
+    chk.prove("expr.Expr._handle_closing_parenthesis", harness, ex, targets=[fn], replay=replay_expr)
